@@ -61,7 +61,13 @@ impl<F> Stream<F> {
 
     fn flush_changes(&mut self) -> io::Result<()> {
         if let Some(flusher) = self.flusher.take() {
-            flusher.flush_changes(self)?;
+            if let Err(err) = flusher.flush_changes(self) {
+                // The buffered data has not been written; keep it marked as
+                // modified, so that a later flush tries again rather than
+                // reporting success without writing anything.
+                self.flusher = Some(flusher);
+                return Err(err);
+            }
         }
         Ok(())
     }
